@@ -183,9 +183,25 @@ func (p *processor) processEvent(event *Event) (isPassed bool, e *Event) {
 		event = stream.blockGet()
 		if event.IsTimeoutKind() {
 			// pass timeout directly to plugin which requested next sequential event.
-			event.action = lastAction
+			event.action = p.timeoutAction(lastAction)
 		}
 	}
+}
+
+// timeoutAction returns the action a timeout event must be delivered to: lastAction when it is
+// the one waiting for the next sequential event, otherwise the first busy action. lastAction may
+// be an action that merely discarded the previous event while a later action is still holding
+// one; it would swallow every timeout and the held event would never be flushed.
+func (p *processor) timeoutAction(lastAction int) int {
+	if p.busyActions[lastAction] {
+		return lastAction
+	}
+	for i, busy := range p.busyActions {
+		if busy {
+			return i
+		}
+	}
+	return lastAction
 }
 
 func (p *processor) doActions(event *Event) (isPassed bool, lastAction int) {
